@@ -16,6 +16,7 @@ CONSTANTS
   DlEnds = {0, 1}
   PreEst = FALSE
   BlockOnRoom = FALSE
+  IdTop = FALSE
   TrackKinds = {"zr","rt"}
 SPECIFICATION Spec
 VIEW view
